@@ -100,3 +100,40 @@ Lemma evaluate_matched_tp_is_kept x ems dmo thr a tp lists dicts :
   all_dicts x a (matched_labels a) ems = Ok dicts -> evaluate_matched x ems dmo thr a = Ok (tp, lists) ->
   tp = Z.of_nat (length (filter (fun d => passes_decision dmo thr (fun m => lookup_mq m d)) dicts)).
 Proof. intros Hd. unfold evaluate_matched. rewrite Hd. destruct (negb _); [discriminate|]. intros [= <- _]. reflexivity. Qed.
+
+(* ---- zero-instance inputs through the whole pipeline (C08 at pipeline level) ---- *)
+Lemma pipeline_zero_instances x c a : (n_pred_inst a = 0 \/ n_ref_inst a = 0) ->
+  pipeline x c a =
+  panoptica_result {| r_np := n_pred_inst a; r_nr := n_ref_inst a; r_tp := 0;
+                      r_lists := map (fun m => (m, [])) (dedup_metrics (c_ems c)); r_handler := c_handler c |}.
+Proof.
+  intros H. assert (Ez : zero_case (n_pred_inst a) (n_ref_inst a) = Some (n_ref_inst a, n_pred_inst a)).
+  { unfold zero_case. destruct ((n_pred_inst a =? 0) || (n_ref_inst a =? 0)) eqn:E; [reflexivity|lia]. }
+  unfold pipeline, eval_phase. rewrite Ez. destruct (c_matcher c =? 0); reflexivity.
+Qed.
+
+Theorem pipeline_zero_instances_result x c a :
+  (n_pred_inst a = 0 \/ n_ref_inst a = 0) ->
+  (forall m, In m (c_ems c) -> exists mh, lookup_m m (h_table (c_handler c)) = Some mh) ->
+  exists s r, classify (n_pred_inst a) (n_ref_inst a) = Some s /\ pipeline x c a = Ok r /\
+    o_tp r = 0 /\ o_fp r = n_pred_inst a /\ o_fn r = n_ref_inst a /\
+    (forall mr, In mr (o_metrics r) -> exists mh, lookup_m (m_metric mr) (h_table (c_handler c)) = Some mh /\
+        m_sq mr = ecr_value (entry mh s) /\ m_var mr = ecr_value (h_std (c_handler c)) /\ m_all mr = []) /\
+    (forall m, In m (c_ems c) -> exists mr, In mr (o_metrics r) /\ m_metric mr = m).
+Proof.
+  intros Hz Hdef. rewrite (pipeline_zero_instances x c a Hz).
+  assert (Hp : 0 <= n_pred_inst a) by (unfold n_pred_inst; lia). assert (Hr : 0 <= n_ref_inst a) by (unfold n_ref_inst; lia).
+  assert (Hin : forall m, existsb (metric_eqb m) (dedup_metrics (c_ems c)) = true <-> In m (c_ems c)).
+  { intros m. unfold dedup_metrics. rewrite existsb_exists. split.
+    - intros (k & Hk & E). apply metric_eqb_eq in E. subst k. apply filter_In in Hk as [_ Hk]. apply existsb_exists in Hk as (j & Hj & E).
+      apply metric_eqb_eq in E. now subst.
+    - intros H. exists m. split; [|now apply metric_eqb_eq]. apply filter_In. split; [destruct m; cbn; tauto|].
+      apply existsb_exists. exists m. split; [exact H|now apply metric_eqb_eq]. }
+  destruct (zero_tp_result (c_handler c) (n_pred_inst a) (n_ref_inst a) (map (fun m => (m, [])) (dedup_metrics (c_ems c))) Hp Hr)
+    as (s & r & Hs & Hres & H1 & H2 & H3 & H4 & H5).
+  - intros m vals Hl. rewrite (lookup_m_map_key (fun _ => @nil Q)) in Hl. destruct (existsb _ _) eqn:E; [|discriminate].
+    apply Hdef. now apply Hin.
+  - intros m vals Hl. rewrite (lookup_m_map_key (fun _ => @nil Q)) in Hl. destruct (existsb _ _); [now injection Hl as <-|discriminate].
+  - exists s, r. repeat split; try assumption. intros m Hm. apply H5. rewrite (lookup_m_map_key (fun _ => @nil Q)).
+    rewrite (proj2 (Hin m) Hm). discriminate.
+Qed.
